@@ -127,9 +127,17 @@ const deferAbove = 6 // storage-trie segments longer than this are permuted once
 
 // segSig identifies a recorded trie sequence together with the state it applies to.
 func segSig(st int, isTrie bool, tr *trieRec) string {
+	// the recorded order inside a segment is Go's map order of that run: the signature sorts each segment
 	s := fmt.Sprintf("state%d %v %x %x|", st, isTrie, tr.addrHash, tr.openRoot)
+	var seg []string
 	for _, o := range tr.ops {
-		s += fmt.Sprintf("%c%x=%x;", o.kind, o.k, o.v)
+		if o.kind == 'H' || o.kind == 'C' {
+			sort.Strings(seg)
+			s += fmt.Sprint(seg) + string(o.kind) + "|"
+			seg = nil
+			continue
+		}
+		seg = append(seg, fmt.Sprintf("%c%x=%x", o.kind, o.k, o.v))
 	}
 	return hashOf(s)
 }
